@@ -298,6 +298,25 @@ def check(case):
             e = float(np.abs(rx[_slab(nd, ax, gi)] - full[_slab(nd, ax, gi)]).max() / sc)
             res.expect_small("solver-vs-reported", e, 1e-8, f"solver-vs-reported:{name}:ax{ax}",
                              f"ghost values in the solver's solution differ from the reported ones on axis {ax} of {name}")
+    # two variables on ONE boundary-condition object, conditions edited after both exist, apply_BCs() on each, then a solve of
+    # the second: its reported values and the solver's rows must both reflect the edited conditions
+    # (without the second variable's own apply_BCs this would be the known finding K3 of C09; with it, it must work)
+    BCs = pf.BoundaryConditions(m)
+    v1 = pf.CellVariable(m, np.array(P['init'], float), BCs)
+    v2 = pf.CellVariable(m, np.array(P['init'], float)[tuple(slice(None, None, -1) for _ in d)].copy(), BCs)
+    apply_bc(BCs, bc)
+    v1.apply_BCs()
+    v2.apply_BCs()
+    tl_s = [pf.transientTerm(v2, P['dt'], 1.0)] + problem.spatial_terms(m, dict(P, scheme='upwind' if P['scheme'] == 'tvd' else P['scheme']))
+    fresh = pf.CellVariable(m, np.array(v2.value, float), apply_bc(pf.BoundaryConditions(m), bc))
+    tl_f = [pf.transientTerm(fresh, P['dt'], 1.0)] + problem.spatial_terms(m, dict(P, scheme='upwind' if P['scheme'] == 'tvd' else P['scheme']))
+    pf.solvePDE(v2, tl_s)
+    pf.solvePDE(fresh, tl_f)
+    fv2, ffr = np.asarray(v2._value, float), np.asarray(fresh._value, float)
+    if np.all(np.isfinite(fv2)) and np.all(np.isfinite(ffr)):
+        _check_full(res, geo, name, bc, fv2, "solvePDE (shared BC object, edited, applied)", d)
+        res.expect_small("shared-vs-fresh", float(np.abs(fv2 - ffr).max() / (np.abs(ffr).max() + 1e-300)), 1e-9, f"shared-vs-fresh:{name}",
+                         f"variable sharing its (edited, re-applied) BC object solves differently from a fresh variable with the same conditions on {name}")
     # scaling (a,b,c) of one side by lambda changes nothing
     Q = copy.deepcopy(P)
     ent = Q['bc'][case['lam_ax']]
